@@ -400,32 +400,39 @@ def run(prop, tier):
                         sc["direct"] = True     # the damaged file also opened directly by every pack reader
                     scns.append(sc)
                 t1 = time.time()
-                # (after a dozen crashes / hangs in one batch the verdict is reached: the rest of the batch is skipped)
-                runs = C.run_scenarios(binaries[profile], scns, "I_%s" % prop, timeout=120 + len(scns) // 20, before_round=restore,
-                                       max_failures=12 if prop == "C06" else None, env_extra={"VERIF_SCN_TIMEOUT": "20"})
-                restore()
-                scns = [s for s in scns if runs.get(s["id"], {}).get("status") != "skipped"]
-                # crashes and timeouts are re-run alone in a fresh process before they are attributed
-                again = [s for s in scns if runs.get(s["id"], {"status": "crash:notrun"})["status"] != "ok"]
-                for s in again[:12]:
+                all_scns = scns
+                # a dump of a container of thousands of entries is hundreds of KiB of JSON: such worlds are processed a hundred cases at a time
+                chunk = 100 if stride in ("big", "huge", "bigc") else 3000
+                for ci in range(0, len(all_scns), chunk):
                     if confirmed_bad >= 6:
-                        runs[s["id"]] = {"events": [], "status": "skipped"}
-                        continue
-                    r1 = C.run_scenarios(binaries[profile], [s], "I_alone", timeout=60, before_round=restore, env_extra={"VERIF_SCN_TIMEOUT": "40"})
+                        break
+                    scns = all_scns[ci:ci + chunk]
+                    # (after a dozen crashes / hangs in one batch the verdict is reached: the rest of the batch is skipped)
+                    runs = C.run_scenarios(binaries[profile], scns, "I_%s" % prop, timeout=120 + len(scns) // 20, before_round=restore,
+                                           max_failures=12 if prop == "C06" else None, env_extra={"VERIF_SCN_TIMEOUT": "20"})
                     restore()
-                    runs[s["id"]] = r1.get(s["id"], {"events": [], "status": "crash:notrun"})
-                    confirmed_bad += runs[s["id"]]["status"] != "ok"
-                scns = [s for s in scns if runs.get(s["id"], {}).get("status") != "skipped"]
-                for s in scns:
-                    cc = case_index[s["id"]]
-                    ev, diffs = outcome_event(cc, runs.get(s["id"], {"events": [], "status": "crash:notrun"}), pflat, fm, {})
-                    cc["diffs"] = (diffs or [])[:4]
-                    events.append(ev)
-                    if ev["changed"]:
-                        nontrivial.add((comp, concat, fn, json.dumps(cc["damage"], sort_keys=True)))
-                    if len(rep.cov["samples"]) < 3 and ev["changed"] and ev["parts"]:
-                        rep.cov["samples"].append({"file": fn, "comp": comp, "mode": concat, "damage": cc["damage"], "case": ev})
-                C.log("[%s] %s/%s %s %s: %d cases %.0fs" % (prop, comp, concat, fn, profile, len(scns), time.time() - t1))
+                    scns = [s for s in scns if runs.get(s["id"], {}).get("status") != "skipped"]
+                    # crashes and timeouts are re-run alone in a fresh process before they are attributed
+                    again = [s for s in scns if runs.get(s["id"], {"status": "crash:notrun"})["status"] != "ok"]
+                    for s in again[:12]:
+                        if confirmed_bad >= 6:
+                            runs[s["id"]] = {"events": [], "status": "skipped"}
+                            continue
+                        r1 = C.run_scenarios(binaries[profile], [s], "I_alone", timeout=60, before_round=restore, env_extra={"VERIF_SCN_TIMEOUT": "40"})
+                        restore()
+                        runs[s["id"]] = r1.get(s["id"], {"events": [], "status": "crash:notrun"})
+                        confirmed_bad += runs[s["id"]]["status"] != "ok"
+                    scns = [s for s in scns if runs.get(s["id"], {}).get("status") != "skipped"]
+                    for s in scns:
+                        cc = case_index[s["id"]]
+                        ev, diffs = outcome_event(cc, runs.get(s["id"], {"events": [], "status": "crash:notrun"}), pflat, fm, {})
+                        cc["diffs"] = (diffs or [])[:4]
+                        events.append(ev)
+                        if ev["changed"]:
+                            nontrivial.add((comp, concat, fn, json.dumps(cc["damage"], sort_keys=True)))
+                        if len(rep.cov["samples"]) < 3 and ev["changed"] and ev["parts"]:
+                            rep.cov["samples"].append({"file": fn, "comp": comp, "mode": concat, "damage": cc["damage"], "case": ev})
+                C.log("[%s] %s/%s %s %s: %d cases %.0fs" % (prop, comp, concat, fn, profile, len(all_scns), time.time() - t1))
     # validation: one event per case
     import p_entries as E
 
